@@ -209,8 +209,10 @@ protected:
     // Checking if any char has been extracted in advance
     if (chunk.advanced != 0) {
       // Checking if a full string is encoded in these advanced chars
+      // (the first char is jumped because it is part of the VByte encoding
+      // of the prefix length, which is 0 for lengths multiple of 128)
       chunk.str[prevLen + chunk.advanced] = 0;
-      nextLen = strlen((char *)(chunk.str + prevLen));
+      nextLen = 1 + strlen((char *)(chunk.str + prevLen + 1));
 
       if ((nextLen < chunk.advanced) && (nextLen > 0)) {
         uint read =
